@@ -63,7 +63,7 @@ pub trait VecZnxDftApply<BE: Backend> {
 }
 pub trait VecZnxIdftApplyConsume<BE: Backend> {
     fn vec_znx_idft_apply_consume<D: Data>(&self, a: VecZnxDft<D, BE>) -> (r: VecZnxBig<D, BE>)
-        ensures r.n == a.n, r.cols == a.cols, r.size == a.size, r.max_size == a.max_size, r.deps == a.deps, r.rad == a.rad;
+        ensures r.n == a.n, r.cols == a.cols, r.size == a.size, r.max_size == a.max_size, r.deps == a.deps, r.rad == a.rad, forall|i: int, j: int| #[trigger] r.dep(i, j) == a.dep(i, j);
 }
 pub trait VecZnxBigAddSmallAssign<BE: Backend> {
     fn vec_znx_big_add_small_assign<D: DataMut, A: VecZnxToRef>(&self, res: &mut VecZnxBig<D, BE>, res_col: usize, a: &A, a_col: usize)
